@@ -8,6 +8,7 @@ import (
 	"fmt"
 	"os"
 	"sort"
+	"strings"
 	"strconv"
 
 	"golang.org/x/tools/go/ssa"
@@ -128,6 +129,33 @@ func main() {
 }
 
 func dumpInfo(P *Program, what string) {
+	if strings.HasPrefix(what, "ts:") {
+		V := resolveVocab(P)
+		c := &Ctx{P: P, R: NewReport("dump", "quick"), V: V}
+		ts := NewTS(c)
+		var all []*ssa.Function
+		all = append(all, V.NfsEntries...)
+		all = append(all, P.RepoFuncs("shrinker")...)
+		for _, e := range all {
+			if e.Name() == what[3:] || what[3:] == "all" {
+				ts.RunEntry(e)
+			}
+		}
+		var ks []string
+		for k := range ts.Events {
+			ks = append(ks, k)
+		}
+		sort.Strings(ks)
+		for _, k := range ks {
+			e := ts.Events[k]
+			fmt.Printf("EV %-8s bad=%-5v %s %s [%s] txn=%s st=%+v %v\n", e.Kind, e.Bad, P.Pos(e.Pos), e.Detail, e.Stack, e.Txn, e.St, e.Extra)
+		}
+		for _, sn := range ts.Snaps {
+			fmt.Printf("SNAP %s ret@%s results=%s\n   G=%s\n", sn.Entry, P.Pos(sn.Ret.Pos()), AV{K: KTuple, Tup: sn.Results}.key(), sn.G.key())
+		}
+		fmt.Println("UNDEC", ts.Undec)
+		return
+	}
 	switch what {
 	case "funcs":
 		for _, f := range P.RepoFuncs() {
